@@ -9,8 +9,24 @@ spec fn index_ok(s: DatabaseShard) -> bool {
     &&& forall|k: Vec<u8>| #[trigger] s.data@.contains_key(k) && s.data@[k].metadata.expires_at is Some ==> s.expiring_keys@.contains_key(k)
 }
 spec fn marks(s: DatabaseShard) -> Set<Seq<u8>> { s.watch_tracker.marks@ }
-spec fn key_state(s: DatabaseShard, k: Vec<u8>) -> Option<StoredValue> {
-    if s.data@.contains_key(k) { Some(s.data@[k]) } else { None }
+/// abstract value of a stored object (containers by their mathematical view, so that "unchanged" does not depend on
+/// the identity of std container objects)
+pub enum ValueView {
+    Str(Seq<u8>), List(Seq<Vec<u8>>), Set(Set<Vec<u8>>), Hash(Map<Vec<u8>, Vec<u8>>), ZSet(Seq<(Vec<u8>, f64)>), Stream(Stream),
+}
+spec fn vview(v: Value) -> ValueView {
+    match v {
+        Value::String(b) => ValueView::Str(b@),
+        Value::List(l) => ValueView::List(l@),
+        Value::Set(m) => ValueView::Set(m@),
+        Value::Hash(h) => ValueView::Hash(h@),
+        Value::SortedSet(z) => ValueView::ZSet(z.view()),
+        Value::Stream(st) => ValueView::Stream(st),
+    }
+}
+/// observable state of a key: abstract value and deadline
+spec fn key_state(s: DatabaseShard, k: Vec<u8>) -> Option<(ValueView, Option<Instant>)> {
+    if s.data@.contains_key(k) { Some((vview(s.data@[k].value), s.data@[k].metadata.expires_at)) } else { None }
 }
 /// frame + WATCH contract shared by every single-key operation on a shard:
 ///  * nothing but `key` changes in the key space or in the deadline index,
@@ -23,6 +39,26 @@ spec fn step_ok(o: DatabaseShard, f: DatabaseShard, key: Vec<u8>) -> bool {
     &&& marks(o).subset_of(marks(f))
     &&& (key_state(f, key) != key_state(o, key) ==> marks(f).contains(key@))
     &&& (index_ok(o) ==> index_ok(f))
+}
+/// variant of step_ok for objects mutated through SHARED references (sorted sets, streams): their member state is not
+/// part of the shard's spec state, so "changed ==> marked" is stated per operation instead; frame, no-foreign-marks and
+/// the deadline-index invariant are as in step_ok
+spec fn step_ok_shared(o: DatabaseShard, f: DatabaseShard, key: Vec<u8>) -> bool {
+    &&& f.data@.remove(key) =~= o.data@.remove(key)
+    &&& f.expiring_keys@.remove(key) =~= o.expiring_keys@.remove(key)
+    &&& marks(f).subset_of(marks(o).insert(key@))
+    &&& marks(o).subset_of(marks(f))
+    &&& (o.data@.contains_key(key) != f.data@.contains_key(key) ==> marks(f).contains(key@))
+    &&& (index_ok(o) ==> index_ok(f))
+}
+/// C03 data invariant: "a collection that becomes empty ceases to exist as a key" — no empty list/set/hash is stored
+spec fn coll_ok(s: DatabaseShard) -> bool {
+    forall|k: Vec<u8>| #[trigger] s.data@.contains_key(k) ==> (match s.data@[k].value {
+        Value::List(l) => l@.len() > 0,
+        Value::Set(m) => m@.len() > 0,
+        Value::Hash(h) => h@.len() > 0,
+        _ => true,
+    })
 }
 spec fn unchanged(o: DatabaseShard, f: DatabaseShard) -> bool {
     f.data@ =~= o.data@ && f.expiring_keys@ =~= o.expiring_keys@ && marks(f) =~= marks(o)
